@@ -9,6 +9,7 @@ mod logfile;
 mod meta;
 mod node;
 mod sm;
+mod smreplay;
 mod store;
 mod util;
 
@@ -25,6 +26,8 @@ fn main() {
         ("replay", "logfile") => logfile::replay(&args[3..]),
         ("replay", "store") => store::replay(&args[3..]),
         ("record", "logfile") => logfile::record(&args[3..]),
+        ("replay", "sm") => smreplay::replay(&args[3..]),
+        ("record", "sm") => smreplay::record(&args[3..]),
         ("replay", "meta") => meta::replay(&args[3..]),
         ("node", "run") => node::main_node(&args[3..]),
         _ => Err(anyhow::anyhow!("unknown command {} {}", args[1], args[2])),
